@@ -141,17 +141,26 @@ def run(c, a):
     # may change the result; for names also under a chained mapping a->b, b->c (exactly one step)
     more = []
     for o in obligs:
-        through_events = "events" in o["path"]
-        for variant in ("tail", "dirty", "json") + (("fill",) if c.pid == "C12" else ()):
-            if variant == "tail" and not through_events:
+        # a HistoryEvent list somewhere on the path (the harness decides by type and reports variants that did not apply)
+        through_events = any("event" in x or x == "@blob" for x in o["path"][:-1])
+        for variant in ("tail", "rich", "dirty", "dirtyfirst", "json") + (("fill",) if c.pid == "C12" else ()):
+            if variant in ("tail", "rich") and not through_events:
                 continue
-            if variant in ("dirty", "json") and not o["inblob"]:
+            if variant in ("dirty", "dirtyfirst", "json") and not o["inblob"]:
                 continue
-            if variant == "dirty" and c.pid == "C14" and o["root"]["service"] != "admin":
+            if variant in ("dirty", "dirtyfirst") and c.pid == "C14" and o["root"]["service"] != "admin":
                 continue     # WorkflowService messages are not touched by the search-attribute translator: the blob stays as it is
             d = dict(o)
             d.update(variant=variant, id=base + len(more) + 1)
             more.append(d)
+        # a path that leaves a history event through a field outside the attributes oneof (links): the event is of SOME type - a
+        # type the translator's shortcut table lists (WorkflowTaskCompleted) and, rotating over the paths (thorough: all), any other
+        if "links" in o["path"][:-1]:
+            ks = [-1] + (list(range(64)) if c.tier == "thorough" else [(7 * len(more)) % 64, (7 * len(more) + 31) % 64])
+            for k in ks:
+                d = dict(o)
+                d.update(variant="evtype", evk=k, id=base + len(more) + 1)
+                more.append(d)
         if c.pid == "C12":
             for val in ("ns-a", "ns-b"):
                 d = dict(o)
@@ -182,8 +191,10 @@ def run(c, a):
         solo.append(d)
     obligs = obligs + solo
     recs = run_obligations(c, obligs, "ob")
-    out_of_scope = [r_ for r_ in recs if r_.get("scope")]
+    not_applicable = [r_ for r_ in recs if r_.get("scope") == "variant-not-applicable"]
+    out_of_scope = [r_ for r_ in recs if r_.get("scope") and r_.get("scope") != "variant-not-applicable"]
     recs = [r_ for r_ in recs if not r_.get("scope")]
+    c.coverage["variant_not_applicable"] = len(not_applicable)
     if out_of_scope:
         c.notes.append("%d 'dirty' obligations skipped: the path does not exist in the 1.22 schema, so a blob written by a server "
                        "of that vintage cannot hold it" % len(out_of_scope))
